@@ -94,10 +94,10 @@ def jobs_for(tier):
         nes = (False, True) if ('enum' in t['feats'] or t['id'] in ('t-of-enum', 't-of-choice', 'seq-opt')) else (False,)
         for ne in nes:
             jobs.append(dict(id='%s/jer%s' % (t['id'], '/numeric' if ne else ''), template=t['id'], codec='jer',
-                             indent=None, numeric_enums=ne, tier=tier, W=256, kind='roundtrip'))
+                             indent=None, numeric_enums=ne, tier=corpus.job_tier(t, tier), W=256, kind='roundtrip'))
             for ind in XER_INDENTS[tier]:
                 jobs.append(dict(id='%s/xer/indent=%s%s' % (t['id'], ind, '/numeric' if ne else ''), template=t['id'],
-                                 codec='xer', indent=ind, numeric_enums=ne, tier=tier, W=256, kind='roundtrip'))
+                                 codec='xer', indent=ind, numeric_enums=ne, tier=corpus.job_tier(t, tier), W=256, kind='roundtrip'))
     return jobs
 
 
